@@ -65,7 +65,7 @@ def freeform(rng, gen, size, max_depth=100, p_unknown=0.15):
         rn = gen.known.get(n.name)
         if rn is not None and rng.random() < 0.6:
             # typed leaf: values from the class tables of its content rule (hostile for that parser in particular)
-            for cr in emlkit.rules_table()[rn][2].get("content_rules", []):
+            for cr in (emlkit.rules_table().get(rn) or [{}, [], {}])[2].get("content_rules", []):
                 if cr in pools:
                     n.content = rng.choice(pools[cr])
                     break
